@@ -364,11 +364,19 @@ def spec_unescape(q):
 
 
 def trash_entries(snap, trash_dir):
-    """{name: (info bytes|None, payload snap|None)} of one trash directory"""
+    """{name: (info bytes|None, payload snap|None)} of one trash directory (an info/ or files/ that is a
+    symbolic link to a directory is followed, as the commands do)"""
     out = {}
-    for n, s in children(snap, trash_dir + '/info').items():
+
+    def real(p):
+        node = sub(snap, p)
+        if node is not None and node[0] == 'l' and node[1].startswith('/'):
+            return node[1]
+        return p
+    idir, fdir = real(trash_dir + '/info'), real(trash_dir + '/files')
+    for n, s in children(snap, idir).items():
         if n.endswith('.trashinfo'):
             out.setdefault(n[:-len('.trashinfo')], [None, None])[0] = s[2] if s[0] == 'f' else s
-    for n, s in children(snap, trash_dir + '/files').items():
+    for n, s in children(snap, fdir).items():
         out.setdefault(n, [None, None])[1] = s
     return {k: tuple(v) for k, v in out.items()}
